@@ -158,4 +158,43 @@ PROPS['C12'] = {
     'level_note': 'index arrays in bounds; sizes small (<= 4 per axis)',
 }
 
+PROPS['C09'] = {
+    'modes': [(0, 7, 'apply'), (0, 1, 'reject'), (1, 7, 'apply'), (1, 1, 'reject')],
+    'budget': {'quick': 40, 'thorough': 400},
+    'deciding': {'C09.mv': (100, 1000), 'C09.apply': (200, 2000), 'C09.construct': (200, 2000),
+                 'C09.as_matrix': (80, 800), 'C09.reject': (50, 200), 'C09.jit': (40, 400)},
+    'require_hist': {'quick': {'C09.method': ['dense', 'direct', 'fft', 'overlap_save']},
+                     'thorough': {'C09.method': ['dense', 'direct', 'fft', 'overlap_save']}},
+    'rule': 'cases = (n in 1..60 quick / 1..200 thorough, K in 1..12 / 1..40 incl. K >= n, band batch shapes broadcastable to the '
+            'input batch shape of rank <= 2, float32 / float64 (x64) / float16 (thorough), explicit FFT sizes 2K-1, 2K, 2K+1, powers '
+            'of two, random >= 2K-1) x the four methods, eager and under jit; every eager mv observed is compared with the float64 '
+            'banded product T[i,j] = band[|i-j|] per batch row; output shape/dtype = input; as_matrix = block diagonal of the per-row '
+            'matrices; illegal methods and FFT sizes must raise ValueError. case key = (method, K<=n or K>n, FFT form, batch ranks, '
+            'dtype); non-trivial = K >= 2',
+    'assumptions': COMMON_ASSUMPTIONS + ['n <= 200, K <= 40'],
+    'technique': 'runtime reference-model monitor on SymmetricBandToeplitzOperator.mv (banded product), constructor acceptance/rejection oracle',
+    'level_text': 'exploration: thousands of (n, K, fft size, batch shape, dtype, method) points, each compared with the explicit banded product.',
+    'level_note': 'n <= 200; FFT methods judged at 3e-4 (float32) / 1e-9 (float64) norm-wise',
+}
+
+PROPS['C10'] = {
+    'modes': [(0, 6, 'blocks'), (0, 2, 'extra'), (1, 6, 'blocks'), (1, 2, 'extra')],
+    'budget': {'quick': 60, 'thorough': 400},
+    'deciding': {'C10.mv': (400, 4000), 'C10.as_matrix': (400, 4000), 'C10.transpose': (400, 4000),
+                 'C10.inverse': (60, 600), 'C10.reject': (50, 500), 'C10.products': (60, 600)},
+    'require_hist': {'quick': {'C10.class': ['row', 'diag', 'col'], 'C10.products': ['blocks/row@diag', 'blocks/diag@col', 'blocks/diag@diag', 'blocks/row@col']},
+                     'thorough': {'C10.class': ['row', 'diag', 'col'], 'C10.products': ['blocks/row@diag', 'blocks/diag@col', 'blocks/diag@diag', 'blocks/row@col']}},
+    'rule': 'cases = block row/diagonal/column operators over list, tuple, dict (unsorted keys), nested, one-side-nested, single-operator '
+            'and arity-1 containers, with blocks that are atoms, compositions, sums, block operators and operators with pytree '
+            'inputs/outputs; mv (all basis vectors) and as_matrix compared with numpy hstack / block_diag / vstack of the reference '
+            'matrices of the blocks in pytree-leaf order; transposes must be the column/diagonal/row operator of the transposed blocks; '
+            'block-diagonal inverses block-wise; mismatching shared structures refused; adjacent block operators reduce to the '
+            'block-wise product (a sum for row x column). case key = (class, container kind, arity, block kinds); non-trivial = '
+            'arity >= 2 or a pytree-valued block',
+    'assumptions': COMMON_ASSUMPTIONS,
+    'technique': 'runtime observation of block operators (mv on all basis vectors, as_matrix, T, I, reduce) against stacked reference matrices',
+    'level_text': 'exploration: thousands of generated block operators over every container kind compared with the explicit block matrices.',
+    'level_note': 'sizes <= 40; sampled containers and block kinds',
+}
+
 NOT_APPLICABLE: dict[str, str] = {}
